@@ -25,7 +25,10 @@ func membershipFactory.New.$[a,s]
   captures s != nil && s.Snapshot != nil
   requires a != nil && a.Qed != nil && !isnil(a.Notifier) && !isnil(a.SnapshotStore) && !isnil(i.log)
   requires a.Qed.hasherF != nil && pure_fn(a.Qed.hasherF) && nonnil_fn(a.Qed.hasherF)
-  modifies everything, alerts, verifyCalls, lastVerify, lastVerifyHistory, lastVerifyHyper, reqCount, lastReqWasPrimary
+  modifies everything, alerts, verifyCalls, lastVerify, lastVerifyHistory, lastVerifyHyper, lastStoredHyper, reqCount, lastReqWasPrimary
+  // the snapshot is checked against the hyper digest the snapshot STORE holds for the current
+  // version, never against the gossiped one
+  ensures C19/verified-against-the-stored-snapshot: verifyCalls == old(verifyCalls) + 1 ==> lastVerifyHyper == lastStoredHyper
   // C19: once verification has been reached, an alert is raised iff it failed
   ensures C19/alert-iff-not-verified: verifyCalls == old(verifyCalls) + 1 ==> (lastVerify ==> alerts == old(alerts)) && (!lastVerify ==> alerts == old(alerts) + 1)
   ensures C19/at-most-one-verification: verifyCalls == old(verifyCalls) || verifyCalls == old(verifyCalls) + 1
